@@ -689,6 +689,18 @@ theorem C03_fn_revokeCp (F : Nat → Secrets.Bytes → Secrets.Bytes)
               · simp only [if_neg t1, if_neg t2, if_pos t3]; simp [fail]
               · simp only [if_neg t1, if_neg t2, if_neg t3]; simp [toES]
 
+-- non-vacuity of the hypotheses of the composition theorems: commit 4 / revoke 3, sign 4 with point 14; revoke 3
+example :=
+  C03_fn_signCp (fun _ _ => ((), ())) (fun _ _ => ((), ())) (fun _ _ _ _ _ _ => contentRules true "")
+    (fun _ n => (toES { slot := .ready, cpCommit := 4, cpRevoke := 3, curPt := some 13, prevPt := some 12 }).get_previous_counterparty_commit_info n)
+    { slot := .ready, cpCommit := 4, cpRevoke := 3, curPt := some 13, prevPt := some 12 } 4 14 1 true "" rfl rfl
+    (by decide) (by decide) (by decide)
+example :=
+  C03_fn_revokeCp Secrets.shaF (fun _ s => s + 10)
+    (fun _ n => (toES { slot := .ready, cpCommit := 5, cpRevoke := 3, curPt := some 14, prevPt := some 13 }).get_previous_counterparty_point n)
+    { slot := .ready, cpCommit := 5, cpRevoke := 3, curPt := some 14, prevPt := some 13 } 3 3 13 [] rfl rfl
+    (by decide) (by decide)
+
 end SimpleState
 
 end VlsModel.Props.C03Fn
